@@ -434,12 +434,22 @@ func collectTVarBlockFacade(b Block) []string {
 }
 
 type RecTrace struct {
-	On   dict.Dict[string, bool]
-	Done dict.Dict[string, RecordType]
+	On    dict.Dict[string, bool]
+	Done  dict.Dict[string, RecordType]
+	DoneU dict.Dict[string, UnionType]
 }
 
 func newRecTrace() RecTrace {
-	return RecTrace{On: dict.New[string, bool](), Done: dict.New[string, RecordType]()}
+	return RecTrace{On: dict.New[string, bool](), Done: dict.New[string, RecordType](), DoneU: dict.New[string, UnionType]()}
+}
+
+func SSetOn(st SSet, key string) bool {
+	on, _ := frt.Destr2(dict.TryFind(st.Dict, key))
+	return on
+}
+
+func SSetOff(st SSet, key string) {
+	dict.Add(st.Dict, key, false)
 }
 
 func transTVFTypeWithSet(visited SSet, recs RecTrace, transTV func(TypeVar) FType, ftp FType) FType {
@@ -487,29 +497,37 @@ func transTVFTypeWithSet(visited SSet, recs RecTrace, transTV func(TypeVar) FTyp
 	case FType_FUnion:
 		ut := _v17.Value
 		uname := utName(ut)
-		return frt.IfElse(SSetHasKey(visited, uname), (func() FType {
+		return frt.IfElse(SSetOn(visited, uname), (func() FType {
 			return ftp
 		}), (func() FType {
-			SSetPut(visited, uname)
-			nrecs := RecTrace{On: dict.New[string, bool](), Done: recs.Done}
-			inUnion := (func(_r0 FType) FType { return transTVFTypeWithSet(visited, nrecs, transTV, _r0) })
-			cases := utCases(ut)
-			ntps := frt.Pipe(slice.Map(func(_v1 NameTypePair) FType {
-				return _v1.Ftype
-			}, cases), (func(_r0 []FType) []FType { return slice.Map(inUnion, _r0) }))
-			names := slice.Map(func(_v2 NameTypePair) string {
-				return _v2.Name
-			}, cases)
-			ncases := frt.Pipe(slice.Zip(names, ntps), (func(_r0 []frt.Tuple2[string, FType]) []NameTypePair {
-				return slice.Map(func(tp frt.Tuple2[string, FType]) NameTypePair {
-					return newNTPair(frt.Fst(tp), frt.Snd(tp))
-				}, _r0)
+			key := uniToKey(ut)
+			memo, hit := frt.Destr2(dict.TryFind(recs.DoneU, key))
+			return frt.IfElse(hit, (func() FType {
+				return New_FType_FUnion(memo)
+			}), (func() FType {
+				SSetPut(visited, uname)
+				nrecs := RecTrace{On: dict.New[string, bool](), Done: recs.Done, DoneU: recs.DoneU}
+				inUnion := (func(_r0 FType) FType { return transTVFTypeWithSet(visited, nrecs, transTV, _r0) })
+				cases := utCases(ut)
+				ntps := frt.Pipe(slice.Map(func(_v1 NameTypePair) FType {
+					return _v1.Ftype
+				}, cases), (func(_r0 []FType) []FType { return slice.Map(inUnion, _r0) }))
+				names := slice.Map(func(_v2 NameTypePair) string {
+					return _v2.Name
+				}, cases)
+				ncases := frt.Pipe(slice.Zip(names, ntps), (func(_r0 []frt.Tuple2[string, FType]) []NameTypePair {
+					return slice.Map(func(tp frt.Tuple2[string, FType]) NameTypePair {
+						return newNTPair(frt.Fst(tp), frt.Snd(tp))
+					}, _r0)
+				}))
+				ntargs := slice.Map(recurse, ut.Targs)
+				nut := UnionType{Name: ut.Name, Targs: ntargs}
+				nui := UnionTypeInfo{Cases: ncases}
+				updateUniInfo(nut, nui)
+				SSetOff(visited, uname)
+				dict.Add(recs.DoneU, key, nut)
+				return New_FType_FUnion(nut)
 			}))
-			ntargs := slice.Map(recurse, ut.Targs)
-			nut := UnionType{Name: ut.Name, Targs: ntargs}
-			nui := UnionTypeInfo{Cases: ncases}
-			updateUniInfo(nut, nui)
-			return New_FType_FUnion(nut)
 		}))
 	default:
 		return ftp
